@@ -1,4 +1,4 @@
 INIT Init
 NEXT Next
-INVARIANTS WholeDay EmptyRange EndExcluded MinutesIrrelevant UnionOfEntries
+INVARIANTS WholeDay EmptyRange EndExcluded MinutesIrrelevant ZoneIrrelevant UnionOfEntries
 CHECK_DEADLOCK FALSE
